@@ -101,3 +101,95 @@ package openapi3
 //@   loop 0 invariant forall k string :: has(m, k) <==> seen(k)
 //@   loop 1 invariant (forall k string :: has(m, k) <==> (has(callback.Extensions, k) || seen(k))) && (forall k string :: seen(k) ==> m[k] == iface(callback.m[k]))
 //@   tag C03
+
+// ---- string-keyed component maps (Content, Schemas, Headers, ...): the decoded map has exactly the
+// keys of the JSON object (minus the origin marker when origins are tracked)
+//@ func popOrigin
+//@   modifies *
+//@   preserves @C03 []byte, globals(openapi3), *map[string]any
+//@   ensures [only-the-origin-key-removed] result.1 == nil ==> forall k string :: has(m, k) <==> (old(has(m, k)) && !(IncludeOrigin && k == key))
+//@   option safety-tags C20
+//@   tag C03
+// (re-encoding one decoded value and decoding it into a fresh V: changes no existing object -
+// assumed of the codec, listed; not verified)
+//@ func deepCast
+//@   modifies nothing
+//@   ensures result.1 == nil ==> result.0 != nil
+//@ func unmarshalStringMapP
+//@   modifies *
+//@   ensures [keys] result.2 == nil ==> result.0 != nil && (forall k string :: has(result.0, k) <==> (jsonHasKey(data, k) && !(IncludeOrigin && k == "__origin__")))
+//@   loop 0 invariant result != nil && fresh(result) && dom(result) == seenset()
+//@   option safety-tags C20
+//@   tag C03
+//@ func unmarshalStringMap
+//@   modifies *
+//@   ensures [keys] result.2 == nil ==> result.0 != nil && (forall k string :: has(result.0, k) <==> (jsonHasKey(data, k) && !(IncludeOrigin && k == "__origin__")))
+//@   loop 0 invariant result != nil && fresh(result) && dom(result) == seenset()
+//@   option safety-tags C20
+//@   tag C03
+//@ func (*Content).UnmarshalJSON
+//@   requires content != nil
+//@   modifies *
+//@   ensures [keys] result == nil ==> forall k string :: has(*content, k) <==> (jsonHasKey(data, k) && !(IncludeOrigin && k == "__origin__"))
+//@   option safety-tags C20
+//@   tag C03
+//@ func (*Callbacks).UnmarshalJSON
+//@   requires callbacks != nil
+//@   modifies *
+//@   ensures [keys] result == nil ==> forall k string :: has(*callbacks, k) <==> (jsonHasKey(data, k) && !(IncludeOrigin && k == "__origin__"))
+//@   option safety-tags C20
+//@   tag C03
+//@ func (*Examples).UnmarshalJSON
+//@   requires examples != nil
+//@   modifies *
+//@   ensures [keys] result == nil ==> forall k string :: has(*examples, k) <==> (jsonHasKey(data, k) && !(IncludeOrigin && k == "__origin__"))
+//@   option safety-tags C20
+//@   tag C03
+//@ func (*Headers).UnmarshalJSON
+//@   requires headers != nil
+//@   modifies *
+//@   ensures [keys] result == nil ==> forall k string :: has(*headers, k) <==> (jsonHasKey(data, k) && !(IncludeOrigin && k == "__origin__"))
+//@   option safety-tags C20
+//@   tag C03
+//@ func (*Links).UnmarshalJSON
+//@   requires links != nil
+//@   modifies *
+//@   ensures [keys] result == nil ==> forall k string :: has(*links, k) <==> (jsonHasKey(data, k) && !(IncludeOrigin && k == "__origin__"))
+//@   option safety-tags C20
+//@   tag C03
+//@ func (*ParametersMap).UnmarshalJSON
+//@   requires parametersMap != nil
+//@   modifies *
+//@   ensures [keys] result == nil ==> forall k string :: has(*parametersMap, k) <==> (jsonHasKey(data, k) && !(IncludeOrigin && k == "__origin__"))
+//@   option safety-tags C20
+//@   tag C03
+//@ func (*RequestBodies).UnmarshalJSON
+//@   requires requestBodies != nil
+//@   modifies *
+//@   ensures [keys] result == nil ==> forall k string :: has(*requestBodies, k) <==> (jsonHasKey(data, k) && !(IncludeOrigin && k == "__origin__"))
+//@   option safety-tags C20
+//@   tag C03
+//@ func (*ResponseBodies).UnmarshalJSON
+//@   requires responseBodies != nil
+//@   modifies *
+//@   ensures [keys] result == nil ==> forall k string :: has(*responseBodies, k) <==> (jsonHasKey(data, k) && !(IncludeOrigin && k == "__origin__"))
+//@   option safety-tags C20
+//@   tag C03
+//@ func (*Schemas).UnmarshalJSON
+//@   requires schemas != nil
+//@   modifies *
+//@   ensures [keys] result == nil ==> forall k string :: has(*schemas, k) <==> (jsonHasKey(data, k) && !(IncludeOrigin && k == "__origin__"))
+//@   option safety-tags C20
+//@   tag C03
+//@ func (*SecuritySchemes).UnmarshalJSON
+//@   requires securitySchemes != nil
+//@   modifies *
+//@   ensures [keys] result == nil ==> forall k string :: has(*securitySchemes, k) <==> (jsonHasKey(data, k) && !(IncludeOrigin && k == "__origin__"))
+//@   option safety-tags C20
+//@   tag C03
+//@ func (*StringMap).UnmarshalJSON
+//@   requires stringMap != nil
+//@   modifies *
+//@   ensures [keys] result == nil ==> forall k string :: has(*stringMap, k) <==> (jsonHasKey(data, k) && !(IncludeOrigin && k == "__origin__"))
+//@   option safety-tags C20
+//@   tag C03
